@@ -240,6 +240,14 @@ class Prop(PropBase):
         'vars / shortcuts given as non-empty sequences or strings (pair-wise dict.update) are outside '
         'the model (verdict 2, counted); the text of the unknown-props message is compared as a set',
         'OS errors other than a missing file (permissions, directories in place of files) are not generated',
+        'Tie B (tools/py2coq_c20.py -> Gen/GenC20.v, proved equal to the model in Proofs/GenC20Proofs.v): the '
+        'translator drops docstrings, logger calls, `parser = ruamel.yaml.YAML()`, the encoding= argument of '
+        'open(), `from OSError`, and the data_dir_* members of PlatformPaths; it maps os.getenv names to the '
+        'fields of the model env record, ConfigError messages to error constructors by their literal text, '
+        'Path(a, b, c) to a/b/c and os.pathsep to ":" by tables; it assumes the Xdg finder (Linux) with '
+        'get_platform_paths("pypyr", "config.yaml"); reading+parsing a file, getattr(self, k).update(v) and '
+        'setattr(self, k, v) are primitives instantiated with the model`s; a loop over a Python set is given '
+        'order-free semantics (every element run, error if any raised)',
     ]
 
     def generate(self, rng, n, tier):
